@@ -136,3 +136,7 @@ pub fn sym_b() -> String { String::new() }
 #[derive(TS)] pub enum r#RawE<T> { A(T), r#B }
 #[derive(TS)] pub struct r#RawS<T> { pub r#a: T }
 #[derive(TS)] pub struct RawU<T> { pub e: r#RawE<T>, pub s: r#RawS<T> }
+#[derive(TS)] #[ts(optional_fields)] pub struct OA1<T: TS> { #[ts(as = "Option<T>")] pub a: i32, pub b: Option<T>, #[ts(as = "Vec<T>")] pub c: i32, #[ts(as = "Option<Vec<T>>", inline)] pub d: i32 }
+#[derive(TS)] #[ts(optional_fields)] pub struct OA2<T: TS> { pub a: Option<T>, pub b: Option<T>, pub c: Vec<T>, #[ts(inline)] pub d: Option<Vec<T>> }
+#[derive(TS)] #[ts(optional_fields = nullable)] pub struct OA3<T: TS> { #[ts(as = "Option<T>")] pub a: i32, pub b: Vec<T> }
+#[derive(TS)] #[ts(optional_fields = nullable)] pub struct OA4<T: TS> { pub a: Option<T>, pub b: Vec<T> }
